@@ -32,6 +32,8 @@ Exp ==
     ebwd |-> [i \in 1..nh' |-> IF LiveP(i-1) THEN Rev(ListOf(cyc', i-1)) ELSE <<>>],
     first |-> [i \in 1..nh' |-> IF LiveP(i-1) /\ ListOf(cyc', i-1) # <<>> THEN Head(ListOf(cyc', i-1)) ELSE -1],
     last |-> [i \in 1..nh' |-> IF LiveP(i-1) /\ ListOf(cyc', i-1) # <<>> THEN ListOf(cyc', i-1)[Len(ListOf(cyc', i-1))] ELSE -1],
+    first2 |-> [i \in 1..nh' |-> IF LiveP(i-1) /\ ListOf(cyc', i-1) # <<>> THEN Head(ListOf(cyc', i-1)) ELSE -1],
+    last2 |-> [i \in 1..nh' |-> IF LiveP(i-1) /\ ListOf(cyc', i-1) # <<>> THEN ListOf(cyc', i-1)[Len(ListOf(cyc', i-1))] ELSE -1],
     chk |-> [i \in 1..nh' |-> IF LiveP(i-1) THEN Len(ListOf(cyc', i-1)) ELSE -1],
     chkr |-> [i \in 1..nh' |-> IF LiveP(i-1) THEN Len(ListOf(cyc', i-1)) ELSE -1],
     \* every item is also a member of a second list through a second link field of the same type: all items (C), the live ones (C++), by id
